@@ -200,6 +200,25 @@ def oracle_parse_locs(pp, gname, mk, s, keep_tabs):
                     probs.append(f"original_text_for {list(toks)!r} != parsed[{st}:{en}]={parsed[st:en]!r}")
         except pp.ParseBaseException:
             pass
+    # 2b. original_text_for(expr) == the slice Located(expr) reports, also when ignorables were added afterwards and a
+    #     comment directly follows the match
+    if gname not in ("lineend", "quoted"):
+        def wrap(w):
+            g = (w(mk()) + pp.Suppress(pp.Opt(";")))[1, ...]
+            g.ignore(pp.c_style_comment)
+            if keep_tabs:
+                g.parse_with_tabs()
+            return g
+        s2 = s + " /* c */ ;" if s.strip() else s
+        parsed2 = s2 if keep_tabs else s2.expandtabs()
+        try:
+            texts = [t for t in wrap(pp.original_text_for).parse_string(s2)]
+            spans = [(t.locn_start, t.locn_end) for t in wrap(lambda e: pp.Group(pp.Located(e))).parse_string(s2)]
+            want = [parsed2[a:b] for a, b in spans]
+            if texts != want:
+                probs.append(f"original_text_for {texts!r} != slices reported by Located {want!r} (with ignore(c_style_comment))")
+        except pp.ParseBaseException:
+            pass
     # 3. leaf slices: Word/Literal tokens are the text between start and end
     if gname in ("word", "lit"):
         try:
